@@ -444,6 +444,17 @@ impl DnsCache {
             });
         }
 
+        // SRV and TXT records that no PTR record leads to (any more) are not
+        // visited above: drop the expired ones, there is nobody to notify.
+        self.srv.retain(|_, records| {
+            records.retain(|srv| !srv.record.get_record().is_expired(now));
+            !records.is_empty()
+        });
+        self.txt.retain(|_, records| {
+            records.retain(|txt| !txt.record.get_record().is_expired(now));
+            !records.is_empty()
+        });
+
         expired_instances
     }
 
